@@ -236,7 +236,8 @@ func (ex *Exec) emptyMapEnc(s *Term) *Term {
 		if s.op == "uf:jenc_map" {
 			return tt.Eq(s.args[0], tt.ConstArr(SArrSB, tt.Bool(false)))
 		}
-		return tt.Eq(s, ex.encMap(nil))
+		// the canonical encoding of the (non-nil) empty map
+		return tt.Eq(s, tt.Str("{}"))
 	})
 }
 
